@@ -285,6 +285,8 @@ fn gen_c02(tier: &Tier, rng: &mut Rng, w: usize, nw: usize, out: &mut Vec<Case>)
             format!("dec {} B{} {}", if small >= 4 { small } else { 16 }, STALE, st),
             format!("decode {}", st),
             format!("rdr io inf {} {}", calls('n', 14), st),
+            // the same stream cut by hard errors / end-of-input reports at random places
+            format!("rdr {} inf {} {}", if rng.chance(1, 4) { "eh" } else { "io" }, calls('n', 24), fault_events(rng, &s, true).replace(" I", "").replace("I ", "")),
         ];
         out.push(Case::new("adversarial", lines).with_aux(vec![hex(&s)]));
     }
